@@ -209,7 +209,9 @@ class Case:
             # wait until every caller has either returned or its request is queued, then flush
             end = time.time() + 10
             while time.time() < end:
-                if all(("exc" in r) or ("msg" in r and r["msg"].header.hop_by_hop_identifier) for r in results):
+                if all(("exc" in r) or ("msg" in r and (r["msg"].header.hop_by_hop_identifier,
+                                                        r["msg"].header.end_to_end_identifier) in h.queued_ids)
+                       for r in results):
                     break
                 time.sleep(0.0005)
             h.settle()
